@@ -3,8 +3,8 @@
    and delete compare against an expired-but-uncollected record; the property
    lists neither among the commands that must treat it as absent. *)
 From MC Require Import Model.Base Model.Generated Model.Store Model.Memc Model.Codec Model.Handler
-  Spec.Exec Proofs.StoreLemmas Proofs.SetLemmas Proofs.MemcLemmas Proofs.Effects Proofs.PC06
-  Proofs.PC01 Proofs.PC05.
+  Model.Conc Model.PolConc Spec.Exec Proofs.StoreLemmas Proofs.SetLemmas Proofs.MemcLemmas Proofs.Effects Proofs.PC06
+  Proofs.PC01 Proofs.PC05 Proofs.PC05c.
 
 (* stored at time t with TTL e: retrievable at every clock < t + e (e = 0: for
    ever), whatever happens to other keys *)
@@ -74,3 +74,21 @@ Example C05_nonvacuous :
   plain s /\ view s [x61] = None /\ view s [x62] = Some (mkRec 3 2 0 6 [x32]) /\
   lookup [x61] (s_mem s) = Some (mkRec 3 1 0 5 [x31]).
 Proof. repeat split. Qed.
+
+(* under concurrency (clock constant in the window): whatever the interleaving
+   of any clients' gets, sets, CAS-sets and deletes — on the plain store and
+   behind the eviction policy, with evictions, flushes and the collection of
+   expired records going on — no retrieval ever answers with a record that is past
+   its deadline (corollaries of C03_linearizable and C03_linearizable_policy) *)
+Theorem C05_no_expired_answer_concurrent : forall now (opss : list (list op)) (sched : list nat) (s0 : shared),
+  let '(ts, _) := run_sched now (prog_of now) sched (map new_thread opss) s0 in
+  forall i t r, nth_thread i ts = Some t -> In (OGetR (ROk r)) (th_done t) -> expired now r = false.
+Proof. exact no_expired_answer_conc. Qed.
+Print Assumptions C05_no_expired_answer_concurrent.
+
+Theorem C05_no_expired_answer_policy :
+  forall now limit (clients : list (list pores -> option pop)) (sched : list nat) (s0 : pshared),
+  let '(ts, _) := prun_sched now limit sched (map (fun c => new_gthread c) clients) s0 in
+  forall i t r, gnth i ts = Some t -> In (PGetR (ROk r)) (g_done t) -> expired now r = false.
+Proof. exact no_expired_answer_policy. Qed.
+Print Assumptions C05_no_expired_answer_policy.
